@@ -55,6 +55,8 @@ type GenOptions struct {
 	// feature weights (0 = never)
 	WClosure, WMeta, WGoto, WCoroutine, WTBC, WError, WPcall, WVararg, WMethod, WStringOps, WTail int
 	ErrorSites bool // deliberately ill-typed operations
+	Health     bool // append the fixed health suite (C11: the runtime still works after caught errors)
+	ErrInMeta  bool // metamethods and iterators that raise
 }
 
 func DefaultGenOptions() GenOptions {
@@ -402,7 +404,9 @@ func (g *Gen) strExpr(d int) Expr {
 		return &Bin{Op: "..", L: g.intExpr(d - 1), R: g.strExpr(d - 1)}
 	case 4:
 		g.feat("string-method")
-		return &MethCall{Obj: g.strOperand(d - 1), Name: "rep", Args: []Expr{g.smallInt(-1, 3)}}
+		// string.rep with a negative count is judged by C19 (golua's own test-suite
+		// expects an error there); not generated here
+		return &MethCall{Obj: g.strOperand(d - 1), Name: "rep", Args: []Expr{g.smallInt(0, 3)}}
 	case 5:
 		g.feat("string-method")
 		return &MethCall{Obj: g.strOperand(d - 1), Name: "sub", Args: []Expr{g.smallInt(-4, 4), g.smallInt(-4, 5)}}
